@@ -111,7 +111,13 @@ namespace c01
   { DT* p = vraw(v); for(size_t i = 0; i < vlen(v); ++i) p[i] = DT(f.at(o++)); }
   template<typename DT, typename IT, int BS> void vput(DenseVectorBlocked<DT, IT, BS>& v, const std::vector<LD>& f, size_t& o)
   { DT* p = vraw(v); for(size_t i = 0; i < vlen(v); ++i) p[i] = DT(f.at(o++)); }
-  // meta vectors
+  // meta vectors (forward declarations: the overloads are mutually recursive)
+  template<typename F, typename T> void vget(const TupleVector<F>& v, std::vector<T>& out);
+  template<typename F, typename G, typename... R, typename T> void vget(const TupleVector<F, G, R...>& v, std::vector<T>& out);
+  template<typename F> void vput(TupleVector<F>& v, const std::vector<LD>& f, size_t& o);
+  template<typename F, typename G, typename... R> void vput(TupleVector<F, G, R...>& v, const std::vector<LD>& f, size_t& o);
+  template<typename S, int n, typename T> void vget(const PowerVector<S, n>& v, std::vector<T>& out);
+  template<typename S, int n> void vput(PowerVector<S, n>& v, const std::vector<LD>& f, size_t& o);
   template<typename F, typename T> void vget(const TupleVector<F>& v, std::vector<T>& out) { vget(v.first(), out); }
   template<typename F, typename G, typename... R, typename T> void vget(const TupleVector<F, G, R...>& v, std::vector<T>& out) { vget(v.first(), out); vget(v.rest(), out); }
   template<typename F> void vput(TupleVector<F>& v, const std::vector<LD>& f, size_t& o) { vput(v.first(), f, o); }
@@ -120,6 +126,11 @@ namespace c01
   { vget(v.first(), out); if constexpr(n > 1) vget(v.rest(), out); }
   template<typename S, int n> void vput(PowerVector<S, n>& v, const std::vector<LD>& f, size_t& o)
   { vput(v.first(), f, o); if constexpr(n > 1) vput(v.rest(), f, o); }
+
+  // address of the first scalar of a vector
+  template<typename DT, typename IT> const void* rawptr(const DenseVector<DT, IT>& v) { return vraw(v); }
+  template<typename DT, typename IT, int BS> const void* rawptr(const DenseVectorBlocked<DT, IT, BS>& v) { return vraw(v); }
+  template<typename V> const void* rawptr(const V& v) { return rawptr(v.first()); } // meta vectors: first leaf
 
   template<typename V> struct DataOf { typedef typename V::DataType type; };
   template<typename V> std::vector<typename DataOf<V>::type> vflat(const V& v) { std::vector<typename DataOf<V>::type> o; vget(v, o); return o; }
@@ -238,9 +249,9 @@ namespace c01
    *  mhash(): bitwise hash of all matrix arrays
    * Returns true if no check failed.
    */
-  template<typename VOut, typename VIn, typename Call, typename MHash>
+  template<typename VOut, typename VY, typename VIn, typename Call, typename MHash>
   bool check_apply(verif::Ctx& c, const std::string& kind, const DenseRef& D, const ApplyCase& ac,
-    VOut& r, VOut& y, VIn& x, Call&& call, MHash&& mhash)
+    VOut& r, VY& y, VIn& x, Call&& call, MHash&& mhash)
   {
     typedef typename DataOf<VOut>::type DT;
     const int nout = ac.transposed ? D.n : D.m, nin = ac.transposed ? D.m : D.n;
@@ -264,7 +275,14 @@ namespace c01
     const uint64_t mh = mhash();
     const LD alpha = (ac.mode == 0) ? LD(1) : LD(DT(scalars[ac.alpha].v));
     // ---- the real code
-    call(ac.mode, r, x, (ac.mode == 2 ? r : y), DT(alpha));
+    if constexpr(std::is_same<VOut, VY>::value) call(ac.mode, r, x, (ac.mode == 2 ? r : y), DT(alpha));
+    else
+    {
+      if(ac.mode == 2) { c.fail(key + " harness", "r==y needs equal types"); return false; }
+      call(ac.mode, r, x, y, DT(alpha));
+    }
+    // observation (not a violation of C01): the result vector was re-bound to the memory of y
+    if(ac.mode == 1 && nout > 0 && (const void*)rawptr(r) == (const void*)rawptr(y)) c.count("observation:" + kind.substr(0, kind.find_first_of("<[ ")) + " apply early-out aliases r to y");
     // ---- compare
     const auto rf = vflat(r);
     if(!c.check(rf.size() == size_t(nout), key + " result-length", "result vector changed its length")) return false;
